@@ -9,16 +9,24 @@
    token lists with the same tree compile to the same program (C20_same_tree_same_program).  The grammar never
    looks at token positions (C20_tree_ignores_positions), so two sources whose token sequences agree in type and
    text -- which is all that layout and comments can leave different, by the byte-level theorems above --
-   are accepted together and compile to the same code and constants (C20_layout_irrelevant).  Not proved: the
-   general bridge "inserting layout at a token boundary leaves the (type, text) sequence unchanged" for whole
-   sources (the byte-level theorems are one-step statements; composing them needs position-shift invariance and
-   append-locality of the lexer, see DESIGN.md), and parentheses around arbitrary sub-expressions; both are
-   exercised by the re-rendering oracle on every generated program. *)
+   are accepted together and compile to the same code and constants (C20_layout_irrelevant).  The bridge from bytes to
+   tokens is Proofs/LexLayout.v (on top of LexFuel.v: more fuel never changes the lexer's result; LexShift.v: the
+   lexer's tokens do not depend on the absolute position; LexLocal.v: chunks never asked for do not matter):
+   `layout` is any mix of the eight whitespace characters and '#' comments ended by CR or LF; leading layout
+   changes nothing (C20_leading_layout); at an insertion point certified by one computation on the PREFIX
+   (`sep_check`: the lexer stands at a token start after the prefix whatever layout character follows) any
+   non-empty layout can be replaced by any other, and where the prefix ends in a token without look-ahead also
+   removed or inserted (C20_layout_any, C20_layout_any_or_none) -- for every continuation of the source, and the
+   compiled code and constants are then equal (C20_layout_any_compiles).  The theorems are universal in the
+   layouts and in the continuation; the insertion point is certified per prefix (no syntactic criterion such as
+   "the prefix ends in ';'" is proved).  Not proved: parentheses around arbitrary sub-expressions (exercised by
+   the re-rendering oracle on every generated program). *)
 From BCL Require Import Model.Lexer Lib.Strconv Proofs.LexerProofs Proofs.LayoutProofs.
 Open Scope N_scope.
 From BCL Require Import Model.Compile Spec.Syntax Proofs.ParserInvProofs Proofs.T2Proofs Proofs.Language.
 
 From BCL Require Import Model.Api Proofs.LayoutTree.
+From BCL Require Import Proofs.LexFuel Proofs.LexShift Proofs.LexLocal Proofs.LexLayout.
 
 Theorem C20_comment_extent : forall body e rest c fuel,
   pending c = [] -> after c = body ++ e :: rest -> (e = 10 \/ e = 13) ->
@@ -161,6 +169,69 @@ Theorem C20_paren_atom : forall f g q lp x rp r a e r',
   pexpr g q (lp :: x :: rp :: r) = Some (e, r').
 Proof. first [exact LayoutTree.paren_atom_closure | apply LayoutTree.paren_atom_closure]. Qed.
 Print Assumptions C20_paren_atom.
+
+Theorem C20_leading_layout : forall ws post, layout ws ->
+  map nopos (fst (lex [ws ++ post])) = map nopos (fst (lex [post])).
+Proof. first [exact LexLayout.leading_layout | apply LexLayout.leading_layout]. Qed.
+Print Assumptions C20_leading_layout.
+
+Theorem C20_only_layout : forall ws, layout_end ws ->
+  map nopos (fst (lex [ws])) = map nopos (fst (lex [[]])).
+Proof. first [exact LexLayout.only_layout | apply LexLayout.only_layout]. Qed.
+Print Assumptions C20_only_layout.
+
+Theorem C20_layout_replace : forall pre d ws1 ws2 post,
+  boundary pre d -> layout (d ++ ws1) -> layout (d ++ ws2) ->
+  map nopos (fst (lex [pre ++ d ++ ws1 ++ post])) = map nopos (fst (lex [pre ++ d ++ ws2 ++ post])).
+Proof. first [exact LexLayout.layout_replace | apply LexLayout.layout_replace]. Qed.
+Print Assumptions C20_layout_replace.
+
+Theorem C20_layout_insertion : forall pre ws post,
+  boundary pre [] -> layout ws ->
+  map strip (fst (lex [pre ++ ws ++ post])) = map strip (fst (lex [pre ++ post])).
+Proof. first [exact LexLayout.layout_insertion | apply LexLayout.layout_insertion]. Qed.
+Print Assumptions C20_layout_insertion.
+
+Theorem C20_layout_any : forall pre ws1 ws2 post,
+  sep_check false pre = true -> layout ws1 -> ws1 <> [] -> layout ws2 -> ws2 <> [] ->
+  map strip (fst (lex [pre ++ ws1 ++ post])) = map strip (fst (lex [pre ++ ws2 ++ post])).
+Proof. first [exact LexLayout.layout_any | apply LexLayout.layout_any]. Qed.
+Print Assumptions C20_layout_any.
+
+Theorem C20_layout_any_or_none : forall pre ws1 ws2 post,
+  sep_check true pre = true -> layout ws1 -> layout ws2 ->
+  map strip (fst (lex [pre ++ ws1 ++ post])) = map strip (fst (lex [pre ++ ws2 ++ post])).
+Proof. first [exact LexLayout.layout_any_or_none | apply LexLayout.layout_any_or_none]. Qed.
+Print Assumptions C20_layout_any_or_none.
+
+Theorem C20_layout_any_compiles : forall n1 n2 pre ws1 ws2 post,
+  sep_check false pre = true -> layout ws1 -> ws1 <> [] -> layout ws2 -> ws2 <> [] ->
+  let src1 := pre ++ ws1 ++ post in
+  let src2 := pre ++ ws2 ++ post in
+  pr_ok (parse_whole n1 src1) = true -> pr_oof (parse_whole n1 src1) = false ->
+  pr_panic (parse_whole n1 src1) = false ->
+  pr_ok (parse_whole n2 src2) = true /\ pr_oof (parse_whole n2 src2) = false /\
+  pr_panic (parse_whole n2 src2) = false /\
+  g_code (pr_prog (parse_whole n1 src1)) = g_code (pr_prog (parse_whole n2 src2)) /\
+  g_consts (pr_prog (parse_whole n1 src1)) = g_consts (pr_prog (parse_whole n2 src2)).
+Proof. first [exact LexLayout.layout_any_compiles | apply LexLayout.layout_any_compiles]. Qed.
+Print Assumptions C20_layout_any_compiles.
+
+Theorem C20_boundary_check_sound : forall pre d, boundary_check pre d = true -> boundary pre d.
+Proof. first [exact LexLayout.boundary_check_sound | apply LexLayout.boundary_check_sound]. Qed.
+Print Assumptions C20_boundary_check_sound.
+
+Theorem C20_lexer_fuel_irrelevant : forall all s s' f f' c,
+  Inv all c -> BG c ->
+  (U c < s)%nat -> (U c < s')%nat -> (U c < f)%nat -> (U c < f')%nat ->
+  lex_run s f c = lex_run s' f' c.
+Proof. first [exact LexFuel.lex_run_stable | apply LexFuel.lex_run_stable]. Qed.
+Print Assumptions C20_lexer_fuel_irrelevant.
+
+Theorem C20_lexer_position_irrelevant : forall steps fuel c1 c2, ShU c1 c2 ->
+  ShU (lex_run steps fuel c1) (lex_run steps fuel c2).
+Proof. first [exact LexShift.lex_run_shU | apply LexShift.lex_run_shU]. Qed.
+Print Assumptions C20_lexer_position_irrelevant.
 
 Example C20_example :
   map ttyp (fst (lex [bs "print" ++ [194; 160; 11; 12] ++ bs "1 # not ; a ( token" ++ [13] ++ bs "print ""# ; ( "" "])) = [tPRINT; tINT; tPRINT; tSTR; tEOF].
